@@ -265,7 +265,9 @@ def eq_sym(ctx, lexpr):
 
     stored = [("PosInt %d" % n, num("PosInt", n), n) for n in (0, 1, 127, 128, 255, 65535, (1 << 31) - 1, I64_MAX, I64_MAX + 1, U64_MAX)]
     stored += [("NegInt %d" % n, num("NegInt", n), n) for n in (-1, -128, -(1 << 31), -(1 << 63))]
-    floats = [("Float %r" % x, num("Float", sim.Flt(x)), x) for x in (2.0, 0.0, -1.0, 0.5, 9223372036854775808.0, 1.8446744073709552e19)]
+    # 0.1 and 16777217.0 are doubles that are not single-precision numbers: they differ from the f32 nearest to them
+    floats = [("Float %r" % x, num("Float", sim.Flt(x)), x) for x in (2.0, 0.0, -1.0, 0.5, 9223372036854775808.0, 1.8446744073709552e19,
+                                                                        0.1, 16777217.0)]
     others = [(k, Adt("value::Value", vidx[k], [Opq("payload")] * len(lexpr.adts["value::Value"]["variants"][vidx[k]]["fields"]), k))
               for k in ("Nil", "Null", "Char", "Bytes", "Vector")]
     results = {}
@@ -351,7 +353,9 @@ def eq_sym(ctx, lexpr):
             for lab, v in others + [("Bool", Adt("value::Value", vidx["Bool"], [1], "Bool"))]:
                 cases.append(("%s == float" % lab, v, Opq("float"), False))
             # as_f64: a float unchanged, an integer converted to the nearest double
-            for pf in (2.0, 0.5, -1.0, 9223372036854775808.0):
+            import struct
+            f32 = lambda x: struct.unpack("<f", struct.pack("<f", x))[0]
+            for pf in (2.0, 0.5, -1.0, 9223372036854775808.0) + ((f32(0.1), 16777216.0) if pbase == "f32" else (0.1, 16777217.0)):
                 pfv = sim.Flt(pf, pbase)
                 for lab, v, x in floats:
                     cases.append(("%s == %r_%s" % (lab, pf, pbase), v, pfv, x == pfv.v))
